@@ -17,6 +17,7 @@ type c15Case struct {
 	alias   int        // 0 none, 1 X->T, 2 X->Y,Y->T, 3 X->Y,Y->X (alias cycle; the variable is typed by X)
 	wrap    int        // 0 T, 1 T[], 2 table<string,T>
 	split   bool       // declarations in defs.lua, variable in main.lua
+	layout  int        // 0 class blocks separated by blank lines; 1 one contiguous comment block; 2 one file per class
 }
 
 func (c c15Case) fieldOf(cl string) string { return "f" + strings.ToLower(cl) }
@@ -51,15 +52,23 @@ func (c c15Case) build() (files map[string]string, mainFile string, access strin
 	fieldLines = map[string][2]interface{}{}
 	line := 0
 	add := func(s string) { defs = append(defs, s); line++ }
+	perClass := map[string]string{}
 	for i, n := range c.classes {
 		h := "---@class " + n
 		if len(c.parents[i]) > 0 {
 			h += " : " + strings.Join(c.parents[i], ", ")
 		}
+		if c.layout == 2 {
+			perClass["class_"+strings.ToLower(n)+".lua"] = h + "\n---@field " + c.fieldOf(n) + " number\n"
+			fieldLines[c.fieldOf(n)] = [2]interface{}{"class_" + strings.ToLower(n) + ".lua", 1}
+			continue
+		}
 		add(h)
 		fieldLines[c.fieldOf(n)] = [2]interface{}{"", line}
 		add("---@field " + c.fieldOf(n) + " number")
-		add("")
+		if c.layout == 0 || i == len(c.classes)-1 {
+			add("")
+		}
 	}
 	typ := c.classes[0]
 	switch c.alias {
@@ -97,36 +106,36 @@ func (c c15Case) build() (files map[string]string, mainFile string, access strin
 	}
 	use = append(use, "print(v)")
 	files = map[string]string{}
+	for k, v := range perClass {
+		files[k] = v
+	}
 	if c.split {
 		files["defs.lua"] = strings.Join(defs, "\n") + "\n"
 		files["main.lua"] = strings.Join(use, "\n") + "\n"
 		mainFile = "main.lua"
 		for k, v := range fieldLines {
-			fieldLines[k] = [2]interface{}{"defs.lua", v[1]}
+			if v[0].(string) == "" {
+				fieldLines[k] = [2]interface{}{"defs.lua", v[1]}
+			}
 		}
 	} else {
 		files["main.lua"] = strings.Join(append(defs, use...), "\n") + "\n"
 		mainFile = "main.lua"
 		for k, v := range fieldLines {
-			fieldLines[k] = [2]interface{}{"main.lua", v[1]}
+			if v[0].(string) == "" {
+				fieldLines[k] = [2]interface{}{"main.lua", v[1]}
+			}
 		}
 	}
 	return
 }
 
 func c15Cases(tier string) []c15Case {
-	var classSets [][]string
-	if tier == "thorough" {
-		classSets = [][]string{{"A", "B"}, {"A", "B", "C"}}
-	} else {
-		classSets = [][]string{{"A", "B"}}
-	}
 	var out []c15Case
-	for _, cs := range classSets {
+	graphs := func(cs []string) [][][]string {
 		n := len(cs)
-		// every assignment of parent sets: class i inherits any subset of all classes (self and cycles included)
-		total := 1 << uint(n*n)
-		for mask := 0; mask < total; mask++ {
+		var gs [][][]string
+		for mask := 0; mask < 1<<uint(n*n); mask++ {
 			ps := make([][]string, n)
 			for i := 0; i < n; i++ {
 				for j := 0; j < n; j++ {
@@ -135,13 +144,38 @@ func c15Cases(tier string) []c15Case {
 					}
 				}
 			}
-			for alias := 0; alias < 4; alias++ {
-				for wrap := 0; wrap < 3; wrap++ {
-					for _, split := range []bool{false, true} {
-						if n == 3 && (alias == 3 || split) && mask%4 != 0 {
-							continue // the three-class graphs are crossed fully with the plain shapes only
+			gs = append(gs, ps)
+		}
+		return gs
+	}
+	// two classes: every graph x every alias shape x every wrapper x every layout
+	two := []string{"A", "B"}
+	for _, ps := range graphs(two) {
+		for alias := 0; alias < 4; alias++ {
+			for wrap := 0; wrap < 3; wrap++ {
+				for _, split := range []bool{false, true} {
+					for layout := 0; layout < 3; layout++ {
+						out = append(out, c15Case{two, ps, alias, wrap, split, layout})
+					}
+				}
+			}
+		}
+	}
+	// three classes: every graph (cycles that do not contain the root included) with the plain shape in every layout;
+	// thorough: crossed with the alias shapes and wrappers as well
+	three := []string{"A", "B", "C"}
+	for _, ps := range graphs(three) {
+		for layout := 0; layout < 3; layout++ {
+			for _, split := range []bool{false, true} {
+				out = append(out, c15Case{three, ps, 0, 0, split, layout})
+				if tier == "thorough" {
+					for alias := 0; alias < 4; alias++ {
+						for wrap := 0; wrap < 3; wrap++ {
+							if alias == 0 && wrap == 0 {
+								continue
+							}
+							out = append(out, c15Case{three, ps, alias, wrap, split, layout})
 						}
-						out = append(out, c15Case{cs, ps, alias, wrap, split})
 					}
 				}
 			}
@@ -197,7 +231,7 @@ func c15Space(tier string) *core.Space {
 			items, err := s.Completion(mainFile, nLines, len("local q = "+access), ".")
 			r.Transitions += 4
 			r.States++
-			shape := fmt.Sprintf("alias%d wrap%d split=%v", c.alias, c.wrap, c.split)
+			shape := fmt.Sprintf("alias%d wrap%d split=%v layout%d", c.alias, c.wrap, c.split, c.layout)
 			var parentsDesc []string
 			for k, n := range c.classes {
 				parentsDesc = append(parentsDesc, n+":"+strings.Join(c.parents[k], "+"))
